@@ -221,6 +221,18 @@ class Interp(object):
             self.abnormal += 1
             self.ctx.count('play:missing_id')
             return
+        if what == 'no_duration':
+            # a recording that was stored through the cassette API (imported / legacy): it has no duration metadata
+            r = self.cas.create_new_recording('Imported')
+            r.set_data('k', 1)
+            self.cas.save_recording(r)
+            try:
+                self.rec.play(r.id, lambda recording: None)
+            except Exception:  # pylint: disable=broad-except
+                pass
+            self.abnormal += 1
+            self.ctx.count('play:no_duration')
+            return
         if not self.saved:
             return
         rid, prog, cls, W = self.saved[op['n'] % len(self.saved)]
@@ -355,10 +367,10 @@ def make_machine(ctx):
         def play(self, what, n):
             self.step({'op': 'play', 'what': what, 'n': n})
 
-        @rule(kind=st.sampled_from(['missing_id', 'on', 'off']))
+        @rule(kind=st.sampled_from(['missing_id', 'no_duration', 'on', 'off']))
         def misc(self, kind):
-            if kind == 'missing_id':
-                self.step({'op': 'play', 'what': 'missing_id', 'n': 0})
+            if kind in ('missing_id', 'no_duration'):
+                self.step({'op': 'play', 'what': kind, 'n': 0})
             else:
                 self.step({'op': 'toggle', 'on': kind == 'on'})
 
